@@ -297,6 +297,10 @@ pub fn pair(args: &Args) {
     let probe = args.flag("probe");
     let small = args.flag("small");
     let force_zwr = args.flag("zwr");
+    // (C08 only: a quarter of the endpoints sit on a device with a burst limit, which makes the interface clamp the window
+    //  field of what it emits. Such a socket accepts more than the window it lets out; the rules that judge segments
+    //  against the advertised window (C04, C05, C17) would have to be weakened for it, so their traces do not have it.)
+    let burst_mode = args.flag("burst");
     let force_ackloss = args.flag("ackloss");
     // (C01 only: the receiver of a scaled-edge run is not polled by its timers while its reader sleeps -- a busy host --,
     //  which is outside the poll discipline C02 presupposes)
@@ -312,6 +316,10 @@ pub fn pair(args: &Args) {
         let (sb, wb) = isn_seed(&mut rng, (run as u64 / 4) % 4);
         let mut ca = pick_cfg(&mut rng, sa, small);
         let mut cb = pick_cfg(&mut rng, sb, small);
+        if !burst_mode {
+            ca.burst = None;
+            cb.burst = None;
+        }
         cb.mtu = ca.mtu; // one link, one MTU
         cb.v6 = ca.v6; // and one address family
         // aligned runs: the receive buffer is a small multiple k of the segment size and the stream a few segments
@@ -417,7 +425,7 @@ pub fn pair(args: &Args) {
         // a stream much longer than the smallest buffer on its way only adds steps (and would hit the step limit)
         total[0] = total[0].min(400 * (ca.tx.min(cb.rx) as i64));
         total[1] = total[1].min(400 * (cb.tx.min(ca.rx) as i64));
-        t.ev(json!({"ev":"reset","run":run,"world":"tcp_pair","seed":seed0,"pollat":pollat_mode,"args":{"small":small,"probe":probe,"zwr":force_zwr,"ackloss":force_ackloss,"edge":edge_mode,"maxbytes":maxbytes},"zw":zwr,"al":ackloss,
+        t.ev(json!({"ev":"reset","run":run,"world":"tcp_pair","seed":seed0,"pollat":pollat_mode,"args":{"small":small,"probe":probe,"zwr":force_zwr,"ackloss":force_ackloss,"edge":edge_mode,"burst":burst_mode,"maxbytes":maxbytes},"zw":zwr,"al":ackloss,
             "v6":ca.v6,"cfg":[{"rx":ca.rx,"tx":ca.tx,"mtu":ca.mtu,"cc":ca.cc,"ad":ca.ack_delay.map(|x| x as i64).unwrap_or(-1),"nagle":ca.nagle,"ts":ca.ts,"isn":wa,"ka":ca.keep_alive.map(|x| x as i64).unwrap_or(-1),"tmo":ca.timeout.map(|x| x as i64).unwrap_or(-1),"spare":ca.spare,"burst":ca.burst.map(|x| x as i64).unwrap_or(-1)},
                    {"rx":cb.rx,"tx":cb.tx,"mtu":cb.mtu,"cc":cb.cc,"ad":cb.ack_delay.map(|x| x as i64).unwrap_or(-1),"nagle":cb.nagle,"ts":cb.ts,"isn":wb,"ka":cb.keep_alive.map(|x| x as i64).unwrap_or(-1),"tmo":cb.timeout.map(|x| x as i64).unwrap_or(-1),"spare":cb.spare,"burst":cb.burst.map(|x| x as i64).unwrap_or(-1)}],
             "link":{"drop":drop_pct,"dup":dup_pct,"flip":flip_pct,"delay":base_delay,"jitter":jitter,"adv_until":adv_until},"total":total}));
